@@ -6,11 +6,13 @@ import (
 	"fmt"
 	"io"
 	"io/fs"
+	"math/rand"
 	"mime"
 	"net/http"
 	"os"
 	"path"
 	"path/filepath"
+	"strconv"
 	"strings"
 	"syscall"
 
@@ -167,6 +169,19 @@ func checkConditionalMatches(fi *FileInfo, ifMatch, ifNoneMatch ConditionalMatch
 	return nil
 }
 
+// createTemp creates a new file with a unique name in dir, with the
+// permissions os.Create would give it.
+func createTemp(dir string) (*os.File, error) {
+	for i := 0; ; i++ {
+		name := filepath.Join(dir, ".webdav-upload-"+strconv.FormatUint(rand.Uint64(), 36))
+		f, err := os.OpenFile(name, os.O_WRONLY|os.O_CREATE|os.O_EXCL, 0666)
+		if os.IsExist(err) && i < 100 {
+			continue
+		}
+		return f, err
+	}
+}
+
 func (fs LocalFileSystem) Create(ctx context.Context, name string, body io.ReadCloser, opts *CreateOptions) (fi *FileInfo, created bool, err error) {
 	p, err := fs.localPath(name)
 	if err != nil {
@@ -174,7 +189,8 @@ func (fs LocalFileSystem) Create(ctx context.Context, name string, body io.ReadC
 	}
 	fi, _ = fs.Stat(ctx, name)
 	created = fi == nil
-	if fi != nil && fi.IsDir {
+	if (fi != nil && fi.IsDir) || path.Clean(name) == "/" {
+		// the root is always a collection, even if its directory is missing
 		return nil, false, NewHTTPError(http.StatusMethodNotAllowed, fmt.Errorf("webdav: resource is a collection"))
 	}
 
@@ -182,19 +198,29 @@ func (fs LocalFileSystem) Create(ctx context.Context, name string, body io.ReadC
 		return nil, false, err
 	}
 
-	wc, err := os.Create(p)
+	// Upload to a temporary file next to the target and rename it into
+	// place, so that a failed upload doesn't destroy an existing file.
+	wc, err := createTemp(filepath.Dir(p))
 	if err != nil {
 		return nil, false, errFromMissingParent(err)
 	}
-	defer wc.Close()
+	tmpPath := wc.Name()
+	if st, err := os.Stat(p); err == nil {
+		wc.Chmod(st.Mode().Perm())
+	}
 
 	if _, err := io.Copy(wc, body); err != nil {
-		os.Remove(p)
+		wc.Close()
+		os.Remove(tmpPath)
 		return nil, false, err
 	}
 	if err := wc.Close(); err != nil {
-		os.Remove(p)
-		return nil, false, err
+		os.Remove(tmpPath)
+		return nil, false, errFromOS(err)
+	}
+	if err := os.Rename(tmpPath, p); err != nil {
+		os.Remove(tmpPath)
+		return nil, false, errFromOS(err)
 	}
 
 	fi, err = fs.Stat(ctx, name)
